@@ -267,9 +267,17 @@ class Run:
             if ob.kind == "witness":
                 asserts.append(g)
             else:
-                # side conditions tagged "ENC:" state where a fast-path encoding stops being exact: they belong to every
-                # query that relies on that encoding, whether or not the obligation also covers UB
-                asserts.append(z3.Or([z3.Not(g)] + unwind + [cnd for k, _, cnd in ubs if ob.also_ub or k.startswith("ENC:")]))
+                enc = [cnd for k, _, cnd in ubs if k.startswith("ENC:")]
+                if getattr(ob, "enc_only", False):
+                    # companion query: is any side condition of the fast-path encoding ("ENC:" sites: the inputs on which
+                    # that encoding stops being exact) reachable on the obligation's domain?
+                    asserts.append(z3.Or(enc) if enc else z3.BoolVal(False))
+                else:
+                    asserts.append(z3.Or([z3.Not(g)] + unwind +
+                                         ([cnd for k, _, cnd in ubs if not k.startswith("ENC:")] if ob.also_ub else [])))
+                    # the ENC sites are refuted by a companion obligation "<name>#enc" (created by the scheduler): kept out of
+                    # the main query they cost nothing there, and on their own they are decided in a fraction of a second
+                    ob._needs_enc = bool(enc) and ob.kind in ("verify", "hunt")
         asserts.extend(ob.extra_asserts)
         if extra is not None:
             asserts.append(extra)
@@ -464,7 +472,7 @@ class Run:
         todo = list(self.obs)
         self.solve_wall = 0.0
         rounds = 0
-        while todo and rounds < 4:
+        while todo and rounds < 6:
             rounds += 1
             queries, owners = [], []
             for ob in todo:
@@ -481,6 +489,17 @@ class Run:
                     else:
                         queries.append(self.build_query(ob))
                         owners.append((ob, "main"))
+                    if getattr(ob, "_needs_enc", False) and not getattr(ob, "_enc_done", False):
+                        ob._enc_done = True
+                        comp = Ob(ob.name + "#enc", "verify", ob.inputs, ob.calls, ob.assume, ob.goal, portfolio=ob.portfolio,
+                                  timeout=ob.timeout, natives=ob.natives, exact=ob.exact, advisory=ob.advisory,
+                                  comm_lemmas=ob.comm_lemmas, abstract=False,
+                                  note="side conditions of the fast-path encoding used by %s are unreachable on its domain (a "
+                                       "model is run on the real build and decided by the property itself)" % ob.name)
+                        comp.enc_only = True
+                        self.obs.insert(self.obs.index(ob) + 1, comp)
+                        queries.append(self.build_query(comp))
+                        owners.append((comp, "main"))
                 except (Unsupported, B.BuildError) as e:
                     ob.verdict, ob.detail = "inconclusive", "%s: %s" % (type(e).__name__, str(e)[:1500])
             t = time.time()
@@ -508,7 +527,14 @@ class Run:
                         # an exact encoding that gave no verdict (timeout / model that did not reproduce) may have a
                         # second exact encoding to try (INT <-> BV)
                         fb = ob.fallback() if callable(ob.fallback) else ob.fallback
-                        if fb is not None:
+                        if isinstance(fb, list):
+                            # a case split: the obligation is replaced by obligations that together cover it
+                            ob.verdict, ob.detail = "refined", "no verdict (%s); split into %d parts" % (ob.detail[:120], len(fb))
+                            idx = self.obs.index(ob)
+                            for j, f2 in enumerate(fb):
+                                self.obs.insert(idx + 1 + j, f2)
+                                nxt.append(f2)
+                        elif fb is not None:
                             ob.verdict, ob.detail = "refined", "no verdict (%s); decided by the next encoding" % ob.detail[:120]
                             fb.name = ob.name.split("#")[0] + "#" + (fb.tag if getattr(fb, "tag", None) else "precise2")
                             idx = self.obs.index(ob)
